@@ -27,8 +27,13 @@ K_SHAPES = {
     'fault': "write('a'); write(10 / (x - x)); write('n');",
     'oob': "int[] q = [1]; write(q[x + 1]);",
     'sleep': "sleep(x); debug(); progress(); write('a');",
+    'emptywrites': "write(\"\"); write(\"\" is byte[]); write(EB); byte zb[0]; write(zb); const byte[] lb = []; write(lb); writeln(EB.length);",
+    'userterminal': "all_is_broken(\"why\"); write('a'); all_is_win(x); write('b');",
 }
 K_DEFEAT_SHAPES = {
+    'consttrue': "write('a'); !truth_is_defeat(true); write('b');",
+    'constfold': "write('a'); !truth_is_defeat(1 < 2 and KT); write('b');",
+    'constfalse': "write('a'); !truth_is_defeat(false or 2 < 1); write('b'); !truth_is_defeat(not KT);",
     'defeat': "write('a'); !is_defeat();",
     'tid': "write('a'); !truth_is_defeat(x == 1); write('b');",
     'preempt_ret': "preempt { write('p'); return; } !truth_is_defeat(x == 1); write('b');",
@@ -42,7 +47,14 @@ K_WRAPS = {
 }
 
 
+K_PRE = "const byte[] EB = []; const bool KT = true;\nempty all_is_broken(string why) { write(why); }\nempty all_is_win(int code) { write(code); }\n"
+
+
 def k_programs():
+    return [(k, K_PRE + src) for k, src in _k_programs()]
+
+
+def _k_programs():
     out = []
     for wk, w in K_WRAPS.items():
         for sk, s in K_SHAPES.items():
